@@ -413,6 +413,9 @@ def gen_mutation(rng, sig, app_label, kinds=None):
                 attrs['max_digits'] = rng.choice([8, 12])
             elif a == 'db_table':
                 attrs['db_table'] = '%s_%s_%s_t' % (app_label, mname.lower(), f.field_name)
+        if init is None and t != 'ManyToManyField' and rng.random() < 0.2:
+            # an initial value on a change that does not make the column NOT NULL: it must not touch any row
+            init = gen_initial(rng, t)
         name = f.field_name if not invalid else rng.choice([f.field_name, 'zz'])
         return {'t': 'ChangeField', 'model': mname, 'field': name, 'ftype': None,
                 'initial': None if init is None else cv(init), 'attrs': [[a, cv(v)] for a, v in attrs.items()]}
